@@ -255,3 +255,213 @@ def header_cuts(rng, dirname, packed_files, limit):
 
 
 GENS = GENS + [gen_chunk_liar]
+
+
+# --------------------------------------------------------------------------
+# compress(1) code-stream bomb: no payload is ever compressed, the codes are written directly.
+# literal 0, then always the code the decoder is about to define (the KwKwK case): the k-th code
+# expands to k bytes, so a full 16-bit table (65279 codes, ~125 KiB of input) already stands for
+# 65279*65280/2 = 2 130 706 560 bytes; `extra` more copies of the longest code add 65279 bytes each.
+# --------------------------------------------------------------------------
+
+def compress_code_bomb(ncodes=65279, extra=0, maxbits=16):
+    out = bytearray([0x1f, 0x9d, maxbits | 0x80])
+    acc = nacc = group = 0
+    n_bits = 9
+    maxmax = 1 << maxbits
+    maxcode = (1 << 9) - 1
+    free_ent = 257
+
+    def put(code, nb):
+        nonlocal acc, nacc, group
+        acc |= code << nacc
+        nacc += nb
+        group += nb
+        while nacc >= 8:
+            out.append(acc & 0xff)
+            acc >>= 8
+            nacc -= 8
+
+    def emit(code, first):
+        nonlocal n_bits, maxcode, free_ent, group
+        if free_ent > maxcode:
+            pad = (-group) % (n_bits * 8)
+            while pad > 0:
+                k = min(pad, 16)
+                put(0, k)
+                pad -= k
+            group = 0
+            n_bits += 1
+            maxcode = maxmax if n_bits == maxbits else (1 << n_bits) - 1
+        put(code, n_bits)
+        if not first and free_ent < maxmax:
+            free_ent += 1
+
+    emit(0, True)
+    total = 1
+    length = 1
+    for _ in range(ncodes - 1):
+        if free_ent < maxmax:
+            code = free_ent          # KwKwK: string of the previous code + its first byte
+            length += 1
+        else:
+            code = maxmax - 1
+        emit(code, False)
+        total += length
+    assert extra == 0 or free_ent >= maxmax, "extra codes only once the table is full"
+    for _ in range(extra):
+        emit(maxmax - 1, False)
+        total += length
+    if nacc:
+        out.append(acc & 0xff)
+    return bytes(out), total
+
+
+# --------------------------------------------------------------------------
+# MMCMP: every entry of the (up to 65535-entry) block table may point at the same stored block, so the same
+# `block_bytes` are copied into the output once per table entry: work = entries x block size for a file of
+# block size + 4 x entries bytes.
+# --------------------------------------------------------------------------
+
+def mmcmp_rewrite_bomb(block_bytes, nblocks=65535):
+    body = b"M" * block_bytes
+    blk = struct.pack("<IIIHHHH", block_bytes, block_bytes, 0, 1, 0, 0, 0) + struct.pack("<II", 0, block_bytes) + body
+    blk_ofs = 24
+    table_ofs = blk_ofs + len(blk)
+    hdr = b"ziRCONia" + struct.pack("<HHHIIBB", 14, 0x1300, nblocks, max(16, block_bytes), table_ofs, 0, 0)
+    assert len(hdr) == 24
+    return hdr + blk + struct.pack("<I", blk_ofs) * nblocks
+
+
+# --------------------------------------------------------------------------
+# Walker-stress inputs (run intact by tools/checks/c02.py through every memory / callback entry point):
+# Unreal packages (UMX) with boundary values in every count / length / offset of the name and export tables, and
+# IT modules whose row-delay effects (SEx) on one row add up to the per-row visit counter's limits.
+# --------------------------------------------------------------------------
+
+def fci(v):
+    """encode an Unreal FCompactIndex"""
+    neg = v < 0
+    v = abs(v)
+    b0 = (v & 0x3f) | (0x80 if neg else 0)
+    v >>= 6
+    out = bytearray()
+    if v:
+        b0 |= 0x40
+    out.append(b0)
+    shift_bits = [7, 7, 7, 6]
+    k = 0
+    while v:
+        bits = shift_bits[k] if k < 4 else 6
+        cur = v & ((1 << bits) - 1)
+        v >>= bits
+        if v and k < 3:
+            cur |= 0x80
+        out.append(cur)
+        k += 1
+        if k == 4:
+            break
+    return bytes(out)
+
+
+def tiny_it(rows_fx=None, nchan=4, orders=(0, 255), speed=6):
+    """a minimal sample-mode IT module: one pattern whose rows carry (channel, effect, param) triples"""
+    rows_fx = rows_fx if rows_fx is not None else [[] for _ in range(4)]
+    pat = bytearray()
+    for row in rows_fx:
+        for ch, fx, param in row:
+            pat += bytes([(ch + 1) | 0x80, 0x08, fx, param])
+        pat.append(0)
+    patblk = struct.pack("<HHI", len(pat), len(rows_fx), 0) + bytes(pat)
+    ordnum = len(orders)
+    hdr = bytearray(b"IMPM" + b"rowdelay".ljust(26, b"\0"))
+    hdr += struct.pack("<HHHHHHHHH", 0x1004, ordnum, 0, 0, 1, 0x0214, 0x0200, 0x0009, 0)
+    hdr += bytes([128, 48, speed, 125, 128, 0]) + struct.pack("<HII", 0, 0, 0)
+    hdr += bytes([32] * 64) + bytes([64] * 64)
+    hdr += bytes(orders)
+    pat_ofs = len(hdr) + 4
+    hdr += struct.pack("<I", pat_ofs)
+    return bytes(hdr) + patblk
+
+
+def it_rowdelay_set():
+    """(name, bytes): SEx on k channels of one row, with and without jumps back to the row"""
+    out = []
+    combos = []
+    for k in range(1, 65):
+        for x in range(1, 16):
+            if (k * x + 1) % 256 in (255, 0, 1) or (k * x) % 256 in (255, 0):
+                combos.append((k, x))
+    combos += [(1, 15), (16, 15), (18, 15), (64, 15), (64, 1), (64, 8)]
+    for k, x in sorted(set(combos)):
+        delay_row = [(ch, 19, 0xE0 | x) for ch in range(k)]
+        # B00 on the delayed row (after the delays), on a later row, and no jump at all (restart at pattern end)
+        for variant, rows in (("same", [delay_row + [(min(k, 63), 2, 0)]]),
+                              ("later", [delay_row, [], [(0, 2, 0)]]),
+                              ("none", [delay_row, [], []]),
+                              ("loop", [[(0, 19, 0xB0)], delay_row, [(0, 19, 0xB3)]])):
+            out.append(("rowdelay-%dx%d-%s.it" % (k, x, variant), tiny_it(rows, nchan=max(4, k + 1))))
+    return out
+
+
+def umx_package(music, typ, version=69, name_count=None, type_idx=None, name_lens=None, serial_size=None, serial_offset=None,
+                objsize=None, name_offset=None, export_count=1, junk=0):
+    """a minimal Unreal package with one export holding `music`; every count / length / offset can be overridden"""
+    names = [b"Music", b"Package", typ, b"None"]
+    tidx = 2 if type_idx is None else type_idx
+    hdr_len = 64
+    ntab = bytearray()
+    for i, n in enumerate(names):
+        if version >= 64:
+            ln = len(n) + 1 if name_lens is None or i >= len(name_lens) or name_lens[i] is None else name_lens[i]
+            ntab += bytes([ln & 0xff]) + n + b"\0" + struct.pack("<I", 0x00070010)
+        else:
+            ntab += n + b"\0" + struct.pack("<I", 0x00070010)
+    noff = hdr_len if name_offset is None else name_offset
+    # object: [junk fci] [type_name fci] [export size dword if version > 61] [objsize fci] music
+    osz = len(music) if objsize is None else objsize
+    obj_hdr = (bytes(8) if version < 40 else b"") + (bytes(16) if version < 60 else b"") + fci(junk) + fci(tidx) + \
+        (struct.pack("<I", len(music)) if version > 61 else b"") + fci(osz)
+    obj = obj_hdr + music
+    exp_ofs = hdr_len + len(ntab)
+    obj_ofs_guess = exp_ofs + 32
+    ssz = len(obj) if serial_size is None else serial_size
+    sof = obj_ofs_guess if serial_offset is None else serial_offset
+    exp = fci(-1) + fci(0) + (struct.pack("<i", 0) if version >= 60 else b"") + fci(0) + struct.pack("<I", 0x0f0004) + fci(ssz) + fci(sof)
+    exp = exp.ljust(32, b"\0")
+    hdr = struct.pack("<IiIiiiiii", 0x9e2a83c1, version, 1, len(names) if name_count is None else name_count, noff,
+                      export_count, exp_ofs, 0, exp_ofs)
+    hdr = hdr.ljust(hdr_len, b"\0")
+    return hdr + bytes(ntab) + exp + obj + bytes(48)
+
+
+def umx_stress_set(rng):
+    """(name, bytes): well-formed packages around tiny S3M / IT / XM / MOD exports, then boundary values in every count /
+    length / offset field of the header, name table, export entry and object header (negative length bytes included)"""
+    mods = [(synthmods.gen_s3m(rng)[0], b"s3m"), (synthmods.gen_it(rng)[0], b"it"), (synthmods.gen_xm(rng)[0], b"xm"),
+            (synthmods.gen_mod(rng)[0], b"mod")]
+    out = []
+    for music, typ in mods:
+        for ver in (35, 61, 63, 64, 69):
+            out.append(("umx-ok-%s-v%d.umx" % (typ.decode(), ver), umx_package(music, typ, version=ver)))
+    music, typ = mods[0][0][:2000], b"s3m"
+    big = [0x7ffffffe, 0x7fffffff, 0x10000, 0xffff, 255, 4, 3, 2, 1, 0]
+    lens = [0x00, 0x01, 0x02, 0x05, 0x7f, 0x80, 0x81, 0xfa, 0xfb, 0xfc, 0xfe, 0xff]
+    for ver in (63, 64, 69):
+        for ln in lens:
+            for slot in (0, 1, 2):
+                nl = [None, None, None, None]
+                nl[slot] = ln
+                out.append(("umx-len%02x@%d-v%d.umx" % (ln, slot, ver),
+                            umx_package(music, typ, version=ver, name_count=0x7fffffff, type_idx=0x7ffffffe, name_lens=nl)))
+                out.append(("umx-len%02x@%d-idx2-v%d.umx" % (ln, slot, ver),
+                            umx_package(music, typ, version=ver, name_lens=nl)))
+        for nc in big:
+            for ti in big[:6] + [nc - 1 if nc > 0 else 0]:
+                out.append(("umx-nc%x-ti%x-v%d.umx" % (nc, ti, ver), umx_package(music, typ, version=ver, name_count=nc, type_idx=ti)))
+        for v in big:
+            out.append(("umx-ssz%x-v%d.umx" % (v, ver), umx_package(music, typ, version=ver, serial_size=v)))
+            out.append(("umx-sof%x-v%d.umx" % (v, ver), umx_package(music, typ, version=ver, serial_offset=v)))
+            out.append(("umx-osz%x-v%d.umx" % (v, ver), umx_package(music, typ, version=ver, objsize=v)))
+            out.append(("umx-nof%x-v%d.umx" % (v, ver), umx_package(music, typ, version=ver, name_offset=max(36, v) & 0x7fffffff)))
+    return out
